@@ -1,5 +1,6 @@
 import re
 from copy import deepcopy
+from fractions import Fraction
 
 from .base import (
     BaseReader, BaseWriter, CaptionSet, CaptionList, Caption, CaptionNode,
@@ -21,7 +22,7 @@ class MicroDVDReader(BaseReader):
 
         lines = content.splitlines()
         captions = CaptionList()
-        fps = 25.0
+        fps = Fraction(25)
         for line in lines:
             if not line:
                 continue
@@ -35,7 +36,9 @@ class MicroDVDReader(BaseReader):
 
             if start == '0' and end == '0':
                 try:
-                    fps = float(txt)
+                    float(txt)
+                    # keep the declared rate exact ("23.976" is 23976/1000)
+                    fps = Fraction(txt.strip())
                     continue
                 except ValueError:
                     raise CaptionReadTimingError(
@@ -66,8 +69,9 @@ class MicroDVDReader(BaseReader):
 
         return caption_set
 
-    def _framestomicro(self, framenum, fps=25.0):
-        return int(framenum / fps * (10 ** 6))
+    def _framestomicro(self, framenum, fps=Fraction(25)):
+        # exact arithmetic: in floats frame 201 at 25 fps is 8039999 us
+        return int(framenum * (10 ** 6) / Fraction(fps))
 
 
 class MicroDVDWriter(BaseWriter):
